@@ -315,9 +315,21 @@ def finish(prop, tier, level, res, cov, t0, floor=2, assumptions=None):
     """Prints KNOWN-FINDING / VIOLATION lines, writes evidence and returns the exit status."""
     wall = time.time() - t0
     kf = open_findings(prop)
+    cov = dict(cov)
+    repro = {}
     for k in kf:
         print('KNOWN-FINDING: property=%s %s [%s]' % (prop, k['what'], k['id']))
-    cov = dict(cov)
+        # replay the directed reproduction of the finding (information only; never changes the verdict)
+        rp = os.path.join(VERIF, k.get('repro', ''))
+        if k.get('repro') and os.path.exists(rp):
+            try:
+                bins = B.build('asan', ('replay',), quiet=True)
+                rc, out = run_replay(bins['replay'], rp, None, {'VERIF_OPEN_FINDINGS': ' '.join(x['id'] for x in open_findings())})
+                repro[k['id']] = 'reproduces' if rc == 4 or 'skipped-declared-data-beyond-file' in out else 'directed reproduction exits %s' % rc
+            except Exception as e:
+                repro[k['id']] = 'not replayed: %s' % str(e)[:100]
+    if repro:
+        cov['known_finding_reproductions'] = repro
     if res.known:
         cov['known_finding_hits'] = res.known
     if kf:
@@ -340,7 +352,7 @@ def finish(prop, tier, level, res, cov, t0, floor=2, assumptions=None):
     return 0
 
 def generic_pbt(prop, tier, n_quick, n_thorough, size_quick=100, size_thorough=100, level='exploration', floor=20, flavour='asan',
-                assumptions=None, shards_quick=8, shards_thorough=16, prop_arg=None, extra_cov=None, extra_env=None, extra_cases=None):
+                assumptions=None, shards_quick=16, shards_thorough=16, prop_arg=None, extra_cov=None, extra_env=None, extra_cases=None):
     t0 = time.time()
     res = Result()
     try:
